@@ -172,26 +172,34 @@ void list_output_m8c(
 
   Memory *memory = &asm_context->memory;
 
-  count = disasm_m8c(
-    memory,
-    start,
-    instruction,
-    sizeof(instruction),
-    asm_context->flags,
-    &cycles_min,
-    &cycles_max);
-
-  hex[0] = 0;
-
-  for (n = 0; n < count; n++)
+  // A range can hold several instructions (the copies of a .repeat block).
+  while (start < end)
   {
-    opcode = memory->read8(start + n);
+    count = disasm_m8c(
+      memory,
+      start,
+      instruction,
+      sizeof(instruction),
+      asm_context->flags,
+      &cycles_min,
+      &cycles_max);
 
-    snprintf(temp, sizeof(temp), "%02x ", opcode);
-    strcat(hex, temp);
+    hex[0] = 0;
+
+    for (n = 0; n < count; n++)
+    {
+      opcode = memory->read8(start + n);
+
+      snprintf(temp, sizeof(temp), "%02x ", opcode);
+      strcat(hex, temp);
+    }
+
+    fprintf(asm_context->list, "0x%04x: %-12s %-30s cycles=%d\n", start, hex, instruction, cycles_min);
+
+    if (count < 1) { break; }
+
+    start += count;
   }
-
-  fprintf(asm_context->list, "0x%04x: %-12s %-30s cycles=%d\n", start, hex, instruction, cycles_min);
 }
 
 void disasm_range_m8c(
